@@ -1,6 +1,6 @@
 (* Props/C06.v -- property theorems only *)
 From Coq Require Import ZArith List.
-From Falcon Require Import Base.Res IL.Const IL.Expr IL.Func Exec.Sem Lift.Lang Lift.C06Check.
+From Falcon Require Import Base.Res IL.Const IL.Expr IL.Func Exec.Sem Lift.Lang Lift.Recover Lift.C06Check Lift.RecoverProofs.
 Import ListNotations.
 
 (* 1. the validator run on every recovered function is sound: acceptance means the two graphs read exactly
@@ -44,3 +44,10 @@ Theorem lang_bisim_exec_sem : forall g1 g2,
   forall n s, pexec_entry sstate sem_do sem_holds g1 n s = pexec_entry sstate sem_do sem_holds g2 n s.
 Proof. intros g1 g2. exact (Lang.lang_bisim_exec sstate sem_do sem_holds g1 g2). Qed.
 Print Assumptions lang_bisim_exec_sem.
+
+(* 5. the model of translate_function_extended (Lift/Recover.v, tied to the Rust code case by case): whatever
+      the block translator returns, a recovered function never has an edge or an entry that names a missing
+      block (the last clause of the property; the other structural clauses need tb_spec and are open) *)
+Theorem recover_names_ok : forall tb fa manual f, recover tb fa manual = Ok f -> names_ok (f_cfg f) = true.
+Proof. exact RecoverProofs.recover_names_ok. Qed.
+Print Assumptions recover_names_ok.
